@@ -21,6 +21,13 @@ pub open spec fn opv_frame<'a>(v: OperationTransformVisitor<'a>, v2: OperationTr
     &&& v2.ident_provider.st().prefix == v.ident_provider.st().prefix
     // below the root of an expression the temporary counter is never reset (C06: no clobbering of live temporaries)
     &&& (!v.ctx.root ==> v2.ident_provider.st().counter >= v.ident_provider.st().counter)
+    // back at the root no temporary is live: the counter starts again at 0
+    &&& (v.ctx.root ==> v2.ident_provider.st().counter == 0)
+}
+// what every visit needs: well-formed telemetry, and no live temporary when the visit starts at the ROOT context - every guard
+// that returns to the root resets the counter, so whoever still holds temporaries must visit below the root (C06/C03/C02)
+pub open spec fn opv_pre<'a>(v: OperationTransformVisitor<'a>) -> bool {
+    v.transform_status.telemetry.wf() && (v.ctx.root ==> v.ident_provider.st().counter == 0)
 }
 
 // C15 / C12 vocabulary.  `hooks(e)`: the number of `_ddiast.*` hook call sites in the tree `e` (abstract; its value on the
@@ -63,7 +70,7 @@ pub uninterp spec fn children_done(e: Expr) -> bool;
 pub uninterp spec fn stmt_children_done(s: Stmt) -> bool;
 
 impl<'a> VisitMutWith<OperationTransformVisitor<'a>> for BinExpr {
-    open spec fn vmc_req(self, v: OperationTransformVisitor<'a>) -> bool { v.transform_status.telemetry.wf() }
+    open spec fn vmc_req(self, v: OperationTransformVisitor<'a>) -> bool { opv_pre(v) }
     #[verifier::prophetic]
     open spec fn vmc_ens(self, v: OperationTransformVisitor<'a>, s2: BinExpr, v2: OperationTransformVisitor<'a>) -> bool {
         &&& opv_frame(v, v2)
@@ -73,7 +80,7 @@ impl<'a> VisitMutWith<OperationTransformVisitor<'a>> for BinExpr {
     }
     #[verifier::external_body]
     fn visit_mut_children_with(&mut self, v: &mut OperationTransformVisitor<'a>) { unimplemented!() }
-    open spec fn vm_req(self, v: OperationTransformVisitor<'a>) -> bool { v.transform_status.telemetry.wf() }
+    open spec fn vm_req(self, v: OperationTransformVisitor<'a>) -> bool { opv_pre(v) }
     #[verifier::prophetic]
     open spec fn vm_ens(self, v: OperationTransformVisitor<'a>, s2: BinExpr, v2: OperationTransformVisitor<'a>) -> bool { opv_frame(v, v2) && acct(v, v2, hooks(Expr::Bin(self)), hooks(Expr::Bin(s2))) }
     #[verifier::external_body]
@@ -81,7 +88,7 @@ impl<'a> VisitMutWith<OperationTransformVisitor<'a>> for BinExpr {
 }
 
 impl<'a> VisitMutWith<OperationTransformVisitor<'a>> for AssignExpr {
-    open spec fn vmc_req(self, v: OperationTransformVisitor<'a>) -> bool { v.transform_status.telemetry.wf() }
+    open spec fn vmc_req(self, v: OperationTransformVisitor<'a>) -> bool { opv_pre(v) }
     #[verifier::prophetic]
     open spec fn vmc_ens(self, v: OperationTransformVisitor<'a>, s2: AssignExpr, v2: OperationTransformVisitor<'a>) -> bool {
         &&& opv_frame(v, v2)
@@ -91,7 +98,7 @@ impl<'a> VisitMutWith<OperationTransformVisitor<'a>> for AssignExpr {
     }
     #[verifier::external_body]
     fn visit_mut_children_with(&mut self, v: &mut OperationTransformVisitor<'a>) { unimplemented!() }
-    open spec fn vm_req(self, v: OperationTransformVisitor<'a>) -> bool { v.transform_status.telemetry.wf() }
+    open spec fn vm_req(self, v: OperationTransformVisitor<'a>) -> bool { opv_pre(v) }
     #[verifier::prophetic]
     open spec fn vm_ens(self, v: OperationTransformVisitor<'a>, s2: AssignExpr, v2: OperationTransformVisitor<'a>) -> bool { opv_frame(v, v2) && acct(v, v2, hooks(Expr::Assign(self)), hooks(Expr::Assign(s2))) }
     #[verifier::external_body]
@@ -99,7 +106,7 @@ impl<'a> VisitMutWith<OperationTransformVisitor<'a>> for AssignExpr {
 }
 
 impl<'a> VisitMutWith<OperationTransformVisitor<'a>> for Tpl {
-    open spec fn vmc_req(self, v: OperationTransformVisitor<'a>) -> bool { v.transform_status.telemetry.wf() }
+    open spec fn vmc_req(self, v: OperationTransformVisitor<'a>) -> bool { opv_pre(v) }
     #[verifier::prophetic]
     open spec fn vmc_ens(self, v: OperationTransformVisitor<'a>, s2: Tpl, v2: OperationTransformVisitor<'a>) -> bool {
         &&& opv_frame(v, v2)
@@ -109,7 +116,7 @@ impl<'a> VisitMutWith<OperationTransformVisitor<'a>> for Tpl {
     }
     #[verifier::external_body]
     fn visit_mut_children_with(&mut self, v: &mut OperationTransformVisitor<'a>) { unimplemented!() }
-    open spec fn vm_req(self, v: OperationTransformVisitor<'a>) -> bool { v.transform_status.telemetry.wf() }
+    open spec fn vm_req(self, v: OperationTransformVisitor<'a>) -> bool { opv_pre(v) }
     #[verifier::prophetic]
     open spec fn vm_ens(self, v: OperationTransformVisitor<'a>, s2: Tpl, v2: OperationTransformVisitor<'a>) -> bool { opv_frame(v, v2) && acct(v, v2, hooks(Expr::Tpl(self)), hooks(Expr::Tpl(s2))) }
     #[verifier::external_body]
@@ -117,7 +124,7 @@ impl<'a> VisitMutWith<OperationTransformVisitor<'a>> for Tpl {
 }
 
 impl<'a> VisitMutWith<OperationTransformVisitor<'a>> for CallExpr {
-    open spec fn vmc_req(self, v: OperationTransformVisitor<'a>) -> bool { v.transform_status.telemetry.wf() }
+    open spec fn vmc_req(self, v: OperationTransformVisitor<'a>) -> bool { opv_pre(v) }
     #[verifier::prophetic]
     open spec fn vmc_ens(self, v: OperationTransformVisitor<'a>, s2: CallExpr, v2: OperationTransformVisitor<'a>) -> bool {
         &&& opv_frame(v, v2)
@@ -127,7 +134,7 @@ impl<'a> VisitMutWith<OperationTransformVisitor<'a>> for CallExpr {
     }
     #[verifier::external_body]
     fn visit_mut_children_with(&mut self, v: &mut OperationTransformVisitor<'a>) { unimplemented!() }
-    open spec fn vm_req(self, v: OperationTransformVisitor<'a>) -> bool { v.transform_status.telemetry.wf() }
+    open spec fn vm_req(self, v: OperationTransformVisitor<'a>) -> bool { opv_pre(v) }
     #[verifier::prophetic]
     open spec fn vm_ens(self, v: OperationTransformVisitor<'a>, s2: CallExpr, v2: OperationTransformVisitor<'a>) -> bool { opv_frame(v, v2) && acct(v, v2, hooks(Expr::Call(self)), hooks(Expr::Call(s2))) }
     #[verifier::external_body]
@@ -135,7 +142,7 @@ impl<'a> VisitMutWith<OperationTransformVisitor<'a>> for CallExpr {
 }
 
 impl<'a> VisitMutWith<OperationTransformVisitor<'a>> for Expr {
-    open spec fn vmc_req(self, v: OperationTransformVisitor<'a>) -> bool { v.transform_status.telemetry.wf() }
+    open spec fn vmc_req(self, v: OperationTransformVisitor<'a>) -> bool { opv_pre(v) }
     #[verifier::prophetic]
     open spec fn vmc_ens(self, v: OperationTransformVisitor<'a>, s2: Expr, v2: OperationTransformVisitor<'a>) -> bool {
         &&& opv_frame(v, v2)
@@ -145,7 +152,7 @@ impl<'a> VisitMutWith<OperationTransformVisitor<'a>> for Expr {
     }
     #[verifier::external_body]
     fn visit_mut_children_with(&mut self, v: &mut OperationTransformVisitor<'a>) { unimplemented!() }
-    open spec fn vm_req(self, v: OperationTransformVisitor<'a>) -> bool { v.transform_status.telemetry.wf() }
+    open spec fn vm_req(self, v: OperationTransformVisitor<'a>) -> bool { opv_pre(v) }
     #[verifier::prophetic]
     open spec fn vm_ens(self, v: OperationTransformVisitor<'a>, s2: Expr, v2: OperationTransformVisitor<'a>) -> bool { opv_frame(v, v2) && acct(v, v2, hooks(self), hooks(s2)) }
     #[verifier::external_body]
@@ -153,7 +160,7 @@ impl<'a> VisitMutWith<OperationTransformVisitor<'a>> for Expr {
 }
 
 impl<'a> VisitMutWith<OperationTransformVisitor<'a>> for Stmt {
-    open spec fn vmc_req(self, v: OperationTransformVisitor<'a>) -> bool { v.transform_status.telemetry.wf() }
+    open spec fn vmc_req(self, v: OperationTransformVisitor<'a>) -> bool { opv_pre(v) }
     #[verifier::prophetic]
     open spec fn vmc_ens(self, v: OperationTransformVisitor<'a>, s2: Stmt, v2: OperationTransformVisitor<'a>) -> bool {
         &&& opv_frame(v, v2)
@@ -163,7 +170,7 @@ impl<'a> VisitMutWith<OperationTransformVisitor<'a>> for Stmt {
     }
     #[verifier::external_body]
     fn visit_mut_children_with(&mut self, v: &mut OperationTransformVisitor<'a>) { unimplemented!() }
-    open spec fn vm_req(self, v: OperationTransformVisitor<'a>) -> bool { v.transform_status.telemetry.wf() }
+    open spec fn vm_req(self, v: OperationTransformVisitor<'a>) -> bool { opv_pre(v) }
     #[verifier::prophetic]
     open spec fn vm_ens(self, v: OperationTransformVisitor<'a>, s2: Stmt, v2: OperationTransformVisitor<'a>) -> bool { opv_frame(v, v2) && acct(v, v2, stmt_hooks(self), stmt_hooks(s2)) }
     #[verifier::external_body]
@@ -171,7 +178,7 @@ impl<'a> VisitMutWith<OperationTransformVisitor<'a>> for Stmt {
 }
 
 impl<'a> VisitMutWith<OperationTransformVisitor<'a>> for IfStmt {
-    open spec fn vmc_req(self, v: OperationTransformVisitor<'a>) -> bool { v.transform_status.telemetry.wf() }
+    open spec fn vmc_req(self, v: OperationTransformVisitor<'a>) -> bool { opv_pre(v) }
     #[verifier::prophetic]
     open spec fn vmc_ens(self, v: OperationTransformVisitor<'a>, s2: IfStmt, v2: OperationTransformVisitor<'a>) -> bool {
         &&& opv_frame(v, v2)
@@ -181,7 +188,7 @@ impl<'a> VisitMutWith<OperationTransformVisitor<'a>> for IfStmt {
     }
     #[verifier::external_body]
     fn visit_mut_children_with(&mut self, v: &mut OperationTransformVisitor<'a>) { unimplemented!() }
-    open spec fn vm_req(self, v: OperationTransformVisitor<'a>) -> bool { v.transform_status.telemetry.wf() }
+    open spec fn vm_req(self, v: OperationTransformVisitor<'a>) -> bool { opv_pre(v) }
     #[verifier::prophetic]
     open spec fn vm_ens(self, v: OperationTransformVisitor<'a>, s2: IfStmt, v2: OperationTransformVisitor<'a>) -> bool { opv_frame(v, v2) }
     #[verifier::external_body]
